@@ -84,8 +84,10 @@ Definition fsd_select bin (nb M : nat) (d : nat -> Q) (s : nat -> nat -> Q) (I :
 (* ------------------------------------------------------------------ *)
 (* position codes: every entry of a container names its own position   *)
 (* ------------------------------------------------------------------ *)
-Definition code3 (off : Z) (P b i j : nat) : Q := inject_Z (off + Z.of_nat ((b * P + i) * P + j)).
-Definition code2 (off : Z) (P b i : nat) : Q := inject_Z (off + Z.of_nat (b * P + i)).
+(* computed in Z: the positions of a 2000 x 2000 matrix are not numbers to write in unary *)
+Definition code3 (off : Z) (P b i j : nat) : Q :=
+  inject_Z (off + ((Z.of_nat b * Z.of_nat P + Z.of_nat i) * Z.of_nat P + Z.of_nat j)).
+Definition code2 (off : Z) (P b i : nat) : Q := inject_Z (off + (Z.of_nat b * Z.of_nat P + Z.of_nat i)).
 
 (* a coded leaf container: PatchedCounts  counts[b][i][j] = off + (b P + i) P + j
                            PatchedSumWeights  sw1[b][i] = off + b P + i,  sw2[b][i] = off2 + b P + i
